@@ -92,3 +92,21 @@ Proof.
   - exact Examples2.start_perft.
 Qed.
 Print Assumptions C01_hyps_met.
+
+(* The move list of the Go code is a fixed-capacity buffer (pkg/move: [moveListSize]Move, uint8 size): the 256th Append would be an
+   index panic, which the model's unbounded lists do not represent.  Decided by the kernel for the constant of the build: the capacity
+   covers 218 - the largest number of moves of a legal chess position (known result, not proved here) - and fits the uint8 counter; the
+   two known 218-move positions are legal positions with exactly 218 generated moves and fit. *)
+From Clemens.C13Mate Require MateDefs MateExamples.
+From Clemens.C13Bridge Require Bridge Few.
+From Clemens Require Pos.MoveListInst.
+Theorem C01_movelist_capacity :
+  (218 <= GoConsts.ml_moveListSize)%N /\ (GoConsts.ml_moveListSize < 256)%N /\
+  (Bridge.legal_pos (MateExamples.root_of Few.fen218a) /\ Few.gen_count (MateExamples.root_of Few.fen218a) = Some 218%nat /\
+   MoveListInst.fits_movelist (MateExamples.root_of Few.fen218a)) /\
+  (Bridge.legal_pos (MateExamples.root_of Few.fen218b) /\ Few.gen_count (MateExamples.root_of Few.fen218b) = Some 218%nat /\
+   MoveListInst.fits_movelist (MateExamples.root_of Few.fen218b)).
+Proof.
+  exact (conj (proj1 MoveListInst.movelist_capacity_ok) (conj (proj2 MoveListInst.movelist_capacity_ok) MoveListInst.record_positions_fit)).
+Qed.
+Print Assumptions C01_movelist_capacity.
